@@ -13,8 +13,10 @@ CONSTANTS
   Kinds = {}
   WithFail = FALSE
   WithInflight = FALSE
+  WithSwap = FALSE
   WithRestart = FALSE
   AlterDbChecked = TRUE
   AlterIdxRecheck = TRUE
   DropGuarded = TRUE
+  CreateFromDrop = TRUE
   TabT = {0, 1, 2, 3}
